@@ -5,21 +5,21 @@ From TV Require Import Base.Prelude Base.C11_Lib Gen.C11_RsaDecrypt Spec.C11_Pkc
 Import ListNotations.
 Open Scope Z_scope.
 
-Lemma decrypt_by_format_all hash hmac raw n d enc :
+Lemma decrypt_by_format_all hash hmac raw n d cache enc :
   (forall k m, zlen (hmac k m) = 32) -> (forall k m, all_bytes (hmac k m) = true) ->
-  (forall m, 0 <= raw m) -> 11 <= numBytes n <= 65535 -> 0 <= d ->
+  (forall m, 0 <= raw m) -> 11 <= numBytes n <= 65535 -> 0 <= d -> cache_ok hash n d cache ->
   zlen enc = numBytes n -> bytesToNumber enc < n ->
   let k := numBytes n in
   let em := be_bytes (Z.to_nat k) (raw (bytesToNumber enc)) in
   let kdk := hmac (hash (be_bytes (Z.to_nat k) d)) enc in
-  (forall M, pkcs1_format em M -> decrypt hash hmac raw true n d "rsa"%string enc = Ok (Some M)) /\
+  (forall M, pkcs1_format em M -> decrypt hash hmac raw true n d "rsa"%string cache enc = Ok (Some M)) /\
   ((forall M, ~ pkcs1_format em M) ->
-     decrypt hash hmac raw true n d "rsa"%string enc =
+     decrypt hash hmac raw true n d "rsa"%string cache enc =
      Ok (Some (skipn (Z.to_nat (k - synth_len k (prf_spec hmac kdk label_length 2048)))
                      (prf_spec hmac kdk label_message (k * 8))))).
 Proof.
-  intros H1 H2 R Hk Hd A B. cbv zeta.
-  rewrite (decrypt_eq_spec_all hash hmac raw H1 H2 R n d enc Hk Hd).
+  intros H1 H2 R Hk Hd Hc A B. cbv zeta.
+  rewrite (decrypt_eq_spec_all hash hmac raw H1 H2 R n d cache enc Hk Hd Hc).
   unfold spec_decrypt. destruct (zlen enc =? numBytes n) eqn:E1; [|lia].
   destruct (bytesToNumber enc <? n) eqn:E2; [|lia]. cbn [andb]. cbv zeta. unfold spec_decrypt_em.
   split.
@@ -33,48 +33,48 @@ Definition hmac_ok (hmac : list Z -> list Z -> list Z) : Prop :=
   (forall k m, zlen (hmac k m) = 32) /\ (forall k m, all_bytes (hmac k m) = true).
 Definition key_size_ok (n : Z) : Prop := 11 <= numBytes n <= 65535.
 
-Lemma decrypt_eq_spec_w : forall hash hmac raw n d enc,
-  hmac_ok hmac -> (forall m, 0 <= raw m) -> key_size_ok n -> 0 <= d ->
-  decrypt hash hmac raw true n d "rsa"%string enc = Ok (spec_decrypt hash hmac raw n d enc).
-Proof. intros hash hmac raw n d enc [H1 H2] R K D. exact (decrypt_eq_spec_all hash hmac raw H1 H2 R n d enc K D). Qed.
+Lemma decrypt_eq_spec_w : forall hash hmac raw n d cache enc,
+  hmac_ok hmac -> (forall m, 0 <= raw m) -> key_size_ok n -> 0 <= d -> cache_ok hash n d cache ->
+  decrypt hash hmac raw true n d "rsa"%string cache enc = Ok (spec_decrypt hash hmac raw n d enc).
+Proof. intros hash hmac raw n d cache enc [H1 H2] R K D. exact (decrypt_eq_spec_all hash hmac raw H1 H2 R n d cache enc K D). Qed.
 
-Lemma decrypt_total_w : forall hash hmac raw n d enc,
-  hmac_ok hmac -> (forall m, 0 <= raw m) -> key_size_ok n -> 0 <= d ->
+Lemma decrypt_total_w : forall hash hmac raw n d cache enc,
+  hmac_ok hmac -> (forall m, 0 <= raw m) -> key_size_ok n -> 0 <= d -> cache_ok hash n d cache ->
   (zlen enc = numBytes n /\ bytesToNumber enc < n ->
-     exists m, decrypt hash hmac raw true n d "rsa"%string enc = Ok (Some m) /\ all_bytes m = true
+     exists m, decrypt hash hmac raw true n d "rsa"%string cache enc = Ok (Some m) /\ all_bytes m = true
                /\ zlen m <= numBytes n - 11) /\
   (~ (zlen enc = numBytes n /\ bytesToNumber enc < n) ->
-     decrypt hash hmac raw true n d "rsa"%string enc = Ok None).
-Proof. intros hash hmac raw n d enc [H1 H2] R K D. exact (decrypt_total_all hash hmac raw H1 H2 R n d enc K D). Qed.
+     decrypt hash hmac raw true n d "rsa"%string cache enc = Ok None).
+Proof. intros hash hmac raw n d cache enc [H1 H2] R K D. exact (decrypt_total_all hash hmac raw H1 H2 R n d cache enc K D). Qed.
 
-Lemma decrypt_by_format_w : forall hash hmac raw n d enc,
-  hmac_ok hmac -> (forall m, 0 <= raw m) -> key_size_ok n -> 0 <= d ->
+Lemma decrypt_by_format_w : forall hash hmac raw n d cache enc,
+  hmac_ok hmac -> (forall m, 0 <= raw m) -> key_size_ok n -> 0 <= d -> cache_ok hash n d cache ->
   zlen enc = numBytes n -> bytesToNumber enc < n ->
   let k := numBytes n in
   let em := be_bytes (Z.to_nat k) (raw (bytesToNumber enc)) in
   let kdk := hmac (hash (be_bytes (Z.to_nat k) d)) enc in
-  (forall M, pkcs1_format em M -> decrypt hash hmac raw true n d "rsa"%string enc = Ok (Some M)) /\
+  (forall M, pkcs1_format em M -> decrypt hash hmac raw true n d "rsa"%string cache enc = Ok (Some M)) /\
   ((forall M, ~ pkcs1_format em M) ->
-     decrypt hash hmac raw true n d "rsa"%string enc =
+     decrypt hash hmac raw true n d "rsa"%string cache enc =
      Ok (Some (skipn (Z.to_nat (k - synth_len k (prf_spec hmac kdk label_length 2048)))
                      (prf_spec hmac kdk label_message (k * 8))))).
-Proof. intros hash hmac raw n d enc [H1 H2]. exact (decrypt_by_format_all hash hmac raw n d enc H1 H2). Qed.
+Proof. intros hash hmac raw n d cache enc [H1 H2]. exact (decrypt_by_format_all hash hmac raw n d cache enc H1 H2). Qed.
 
-Lemma synthetic_independent_of_defect_w : forall hash hmac raw1 raw2 n d enc,
-  hmac_ok hmac -> (forall m, 0 <= raw1 m) -> (forall m, 0 <= raw2 m) -> key_size_ok n -> 0 <= d ->
+Lemma synthetic_independent_of_defect_w : forall hash hmac raw1 raw2 n d cache enc,
+  hmac_ok hmac -> (forall m, 0 <= raw1 m) -> (forall m, 0 <= raw2 m) -> key_size_ok n -> 0 <= d -> cache_ok hash n d cache ->
   pkcs1_unpad (be_bytes (Z.to_nat (numBytes n)) (raw1 (bytesToNumber enc))) = None ->
   pkcs1_unpad (be_bytes (Z.to_nat (numBytes n)) (raw2 (bytesToNumber enc))) = None ->
-  decrypt hash hmac raw1 true n d "rsa"%string enc = decrypt hash hmac raw2 true n d "rsa"%string enc.
-Proof. intros hash hmac raw1 raw2 n d enc [H1 H2]. exact (synthetic_independent_all hash hmac raw1 raw2 n d enc H1 H2). Qed.
+  decrypt hash hmac raw1 true n d "rsa"%string cache enc = decrypt hash hmac raw2 true n d "rsa"%string cache enc.
+Proof. intros hash hmac raw1 raw2 n d cache enc [H1 H2]. exact (synthetic_independent_all hash hmac raw1 raw2 n d cache enc H1 H2). Qed.
 
-Lemma invalid_length_independent_of_defect_w : forall hash hmac raw n d enc,
-  hmac_ok hmac -> (forall m, 0 <= raw m) -> key_size_ok n -> 0 <= d ->
+Lemma invalid_length_independent_of_defect_w : forall hash hmac raw n d cache enc,
+  hmac_ok hmac -> (forall m, 0 <= raw m) -> key_size_ok n -> 0 <= d -> cache_ok hash n d cache ->
   zlen enc = numBytes n -> bytesToNumber enc < n ->
   pkcs1_unpad (be_bytes (Z.to_nat (numBytes n)) (raw (bytesToNumber enc))) = None ->
-  exists m, decrypt hash hmac raw true n d "rsa"%string enc = Ok (Some m) /\
+  exists m, decrypt hash hmac raw true n d "rsa"%string cache enc = Ok (Some m) /\
             zlen m = synth_len (numBytes n)
                        (prf_spec hmac (hmac (hash (be_bytes (Z.to_nat (numBytes n)) d)) enc) label_length 2048).
-Proof. intros hash hmac raw n d enc [H1 H2]. exact (invalid_result_length hash hmac raw n d enc H1 H2). Qed.
+Proof. intros hash hmac raw n d cache enc [H1 H2]. exact (invalid_result_length hash hmac raw n d cache enc H1 H2). Qed.
 
 Lemma dec_prf_is_prf_w : forall hmac key label L,
   hmac_ok hmac -> 0 <= L -> L mod 8 = 0 ->
